@@ -381,6 +381,17 @@ def dispatcher_records(sim, env, sink, run_id: str, counter: List[int]) -> None:
     requests = list(sim.get_requests())
     if len(vehicles) > 8 or len(requests) > 9:
         return
+    # ONE call with all fleets, as the step pipeline makes it: its pairs are attributed to the fleet of their request
+    # (every request of these worlds names exactly one fleet) and judged fleet by fleet like the separate calls below
+    joint: Dict[str, List[Any]] = {f: [] for f in fleets}
+    one_fleet_requests = all(len(r.membership.memberships) == 1 for r in requests) and len(fleets) > 1
+    if one_fleet_requests:
+        _, all_instrs = Dispatcher(cfg).generate_instructions(sim, env)
+        by_id = {r.id: r for r in requests}
+        for i in all_instrs:
+            r = by_id.get(i.request_id)
+            if r is not None:
+                joint[next(iter(r.membership.memberships))].append(i)
     for f in fleets:
         env_f = env._replace(fleet_ids=frozenset([f]) if f else frozenset())
         _, instrs = Dispatcher(cfg).generate_instructions(sim, env_f)
@@ -399,6 +410,10 @@ def dispatcher_records(sim, env, sink, run_id: str, counter: List[int]) -> None:
         counter[0] += 1
         sink.write(json.dumps({"id": f"{run_id}#{counter[0]}", "fleet": f, "time": int(sim.sim_time), "veh": veh, "req": req,
                                "dist": dist, "pairs": [[i.vehicle_id, i.request_id] for i in instrs]}, separators=(",", ":")) + "\n")
+        if one_fleet_requests:
+            counter[0] += 1
+            sink.write(json.dumps({"id": f"{run_id}#{counter[0]}j", "fleet": f, "time": int(sim.sim_time), "veh": veh, "req": req,
+                                   "dist": dist, "pairs": [[i.vehicle_id, i.request_id] for i in joint[f]]}, separators=(",", ":")) + "\n")
 
 
 def run_match(seed: int, work: Path, out_path: Path, steps: int = 6, focus: str = "match") -> Dict[str, Any]:
